@@ -6,7 +6,8 @@ import time
 from . import common as c
 
 SUPPORT = ["Str/TablesOk.v", "Str/FinderProofs.v", "Str/QuoteProofs.v", "Str/GoQuoteProofs.v", "Str/RoundTrip.v",
-           "Str/HtmlProofs.v", "Str/Utf8Proofs.v", "Str/UnquoteProofs.v", "Str/DoubleProofs.v", "Str/Swar.v", "Str/JitString.v"]
+           "Str/HtmlProofs.v", "Str/Utf8Proofs.v", "Str/UnquoteProofs.v", "Str/DoubleProofs.v", "Str/Swar.v", "Str/JitString.v", "Str/HtmlLink.v",
+           "Str/Utf8SimdProofs.v", "Str/AstQuoteProofs.v", "Str/DoubleStrict.v"]
 
 CLAIM = {
     "gens": ["Tables"],
@@ -21,7 +22,7 @@ CLAIM = {
             "(both SIMD blobs, public Go API, Marshal/Unmarshal in four back-end processes) by a differential run whose expected lines come from the real "
             "code, and the real code is compared to encoding/json, unicode/utf8 and plain Go references on every generated input.",
     "note": "Trusted: Coq kernel + vm_compute, tools/tx (tables), extraction, the Go harness, encoding/json + unicode/utf8 as oracles. The native blobs are "
-            "modelled from the C source (tie by differential run only); the AVX2 lookup pre-check of validate_utf8_fast is modelled by its meaning.",
+            "modelled from the C source (tie by differential run only). Props/C20.v imports Enc/Finish.v + Json/Grammar.v of C04 (b-c03) for the strict-JSON link.",
     "technique": "Coq proof over executable models (induction on byte lists, width-parametric blocked finders) + extraction-based differential tie + oracle search",
 }
 
@@ -83,11 +84,12 @@ def run(ctx):
                                      "encoding/json (Unmarshal, HTMLEscape), unicode/utf8 (Valid, DecodeRune) and the plain Go references of harness/cmd/c20/oracle.go as oracles",
                                      "the native blobs internal/native/{avx2,sse} are modelled from native/*.c / parsing.h / utf8.h by hand; only the differential run speaks for the blobs"]
     ctx.assumptions = [
-        "the AVX2 lookup pre-check of validate_utf8_fast (simdjson algorithm) is modelled as 'returns 0 only where the scalar routine does'; exercised by the "
-        "differential run (AVX2 vs SSE vs unicode/utf8 on every input), not proved. The SWAR hex test unhex16_is is modelled by its meaning in Str/Unquote.v and "
-        "PROVED equal to the literal word-level code (32-bit and 64-bit intermediates) on bytes: C20_unhex16_is_swar, C20_unhex16_is_swar64",
-        "double mode (F_DBLUNQ): the reference semantics (unquote twice, as encoding/json does for `,string`) is proved only on canonical double escapes "
-        "(C20_unquote_double_canonical_partial); in general it is refuted (C20_unquote_double_refuted, KF-double-unquote-fusion)",
+        "nothing of the routines' source text is modelled by its meaning any more: the AVX2 lookup pre-check of validate_utf8_fast (Str/Utf8Simd.v, lane-wise model "
+        "of validate_utf8_avx2 incl. the ASCII shortcuts with a stale previous vector) is proved to accept exactly the well-formed strings (C20_avx2_precheck_exact), and the "
+        "SWAR hex test unhex16_is, modelled by its meaning in Str/Unquote.v, is proved equal to the literal word-level code on bytes (C20_unhex16_is_swar, _swar64)",
+        "double mode (F_DBLUNQ): fused = unquoting twice (encoding/json's `,string` semantics) is proved for canonical outer escaping of any inner body the strict reference "
+        "accepts and that does not end in a raw quote/tab/LF/CR (C20_unquote_double_strict, _eq_twice_strict, _strict_iff); outside that class it is refuted "
+        "(C20_unquote_double_refuted, KF-double-unquote-fusion)",
         "runtime.growslice is a section variable `grow` with the hypothesis requested <= grow old requested; append's growth is any capacity >= length",
         "memcpy_p8 copies at most 7 bytes: exact for the actual tables (C20_tables_ok proves n = length s <= 7 for every entry)",
         "destination bytes past the reported length and reads of the input are not modelled (C05/C06); the harness only checks canaries past the capacity",
